@@ -312,4 +312,57 @@ theorem rope_false_unchanged {E : RopeEnv σ γ} {fixed : Bool} {fuel : Nat} {pa
   obtain ⟨rfl, rfl, _, _⟩ := h'
   exact h3 rfl
 
+/-! ## F9 witnesses (the unchanged tree, `fixed = false`) -/
+
+/-- every motion is valid and costs 1 (hop count), nothing is ever interpolated -/
+def f9Env : RopeEnv Nat Nat where
+  cm := fun _ _ => true
+  nInter := fun _ _ => 0
+  interpK := fun a _ _ _ => a
+  identity := 0
+  combine := (· + ·)
+  motion := fun _ _ => 1
+  subtract := (· - ·)
+  better := fun a b => decide (a < b)
+  eqCost := 0
+
+/-- F9: on a three-state path the shortcut 0→2 erases index 1 and then reads `states[2]` of a
+two-element vector -/
+theorem rope_oob : ∃ out r fo, ropeShortcutPath f9Env false 10 [0, 1, 2] = some (out, r, true, fo) :=
+  ⟨[0, 2], true, false, by decide⟩
+
+/-- the same input is harmless with the repair -/
+theorem rope_oob_fixed : ropeShortcutPath f9Env true 10 [0, 1, 2] = some ([0, 2], true, false, false) := by
+  decide
+
+/-- `|a - b|` -/
+def absDiff (a b : Nat) : Nat := (a - b) + (b - a)
+
+/-- points on a line: distance and cost `|a - b|`, `delta = 4`, linear interpolation, motions longer
+than 4 are invalid, `equivalenceTolerance = 0` -/
+def f9Env2 : RopeEnv Nat Nat where
+  cm := fun a b => decide (absDiff a b ≤ 4)
+  nInter := fun a b => if absDiff a b > 4 then absDiff a b / 4 else 0
+  interpK := fun a b n k => if a ≤ b then a + (b - a) * (k + 1) / (n + 1) else a - (a - b) * (k + 1) / (n + 1)
+  identity := 0
+  combine := (· + ·)
+  motion := absDiff
+  subtract := (· - ·)
+  better := fun a b => decide (a < b)
+  eqCost := 0
+
+/-- F9, second face: when the stale index is still in range it names a DIFFERENT state than the
+intended `states[i+1]`.  Path `0, 4, 2, 6, 10, 14` (all segments of length ≤ delta = 4, nothing to
+densify): the shortcut `0 → 2` (i = 0, j = 2) erases index 1; now `states[j] = 6`, so the unchanged
+code computes `distance(0, 6) = 6 > delta`, i.e. one intermediate state, and inserts the midpoint `1`
+of the segment `0 → 2` whose real length 2 calls for none; the repaired code reads `states[i+1] = 2`. -/
+theorem rope_stale_wrong_state :
+    ropeShortcutPath f9Env2 false 10 [0, 4, 2, 6, 10, 14] = some ([0, 1, 2, 6, 10, 14], true, false, false) ∧
+    ropeShortcutPath f9Env2 true 10 [0, 4, 2, 6, 10, 14] = some ([0, 2, 6, 10, 14], true, false, false) := by
+  constructor <;> decide
+
+/-- the out-of-range read in the geometric environment -/
+theorem rope_oob_line : ropeShortcutPath f9Env2 false 10 [0, 4, 2] = some ([0, 2], true, true, false) := by
+  decide
+
 end OmplModel.PathOps
